@@ -311,6 +311,13 @@ class Translator:
                 self.assign(e, x, env, mod, depth)
         elif isinstance(t, ast.Subscript):
             obj = self.eval(t.value, env, mod, depth)
+            if isinstance(t.slice, ast.Slice) and isinstance(obj, list):
+                lo = self.eval(t.slice.lower, env, mod, depth) if t.slice.lower else None
+                hi = self.eval(t.slice.upper, env, mod, depth) if t.slice.upper else None
+                if t.slice.step is not None or not isinstance(v, (list, tuple)):
+                    raise Unmodelled("slice store %s" % ast.unparse(t))
+                obj[_pyint(lo):_pyint(hi)] = list(v)  # in place: every alias of the list sees it
+                return
             idx = self.eval(t.slice, env, mod, depth)
             if isinstance(obj, (list, dict)):
                 obj[_pykey(idx)] = v
@@ -984,6 +991,26 @@ class Translator:
             r = first(self, d, args, kwargs, n)
             if r is not NotImplemented:
                 return r
+        if last == "map_structure" and len(args) >= 2:
+            # tf.nest.map_structure(f, *structures): f applied leaf-wise over parallel lists / tuples / dicts
+            fn_, structs = args[0], args[1:]
+
+            def rec(parts):
+                p0 = parts[0]
+                if isinstance(p0, (list, tuple)) and not isinstance(p0, TensorList):
+                    if any(not isinstance(p, (list, tuple)) or len(p) != len(p0) for p in parts):
+                        raise Unmodelled("map_structure over structures of different shape")
+                    out = [rec([p[i] for p in parts]) for i in range(len(p0))]
+                    return tuple(out) if isinstance(p0, tuple) else out
+                if isinstance(p0, dict):
+                    if any(not isinstance(p, dict) or sorted(p, key=str) != sorted(p0, key=str) for p in parts):
+                        raise Unmodelled("map_structure over dicts with different keys")
+                    return {k: rec([p[k] for p in parts]) for k in sorted(p0, key=str)}
+                if isinstance(fn_, Opaque):
+                    return self.numeric_call(fn_.name, fn_.name.split(".")[-1], list(parts), {}, n)
+                return self.apply(fn_, list(parts), {}, n, 0)
+
+            return rec(list(structs))
         r = self.array_call(d, last, args, kwargs, n)
         if r is not NotImplemented:
             return r
@@ -1352,6 +1379,8 @@ class SelfObj:
     def get(self, name, tr, depth):
         if name in self.attrs:
             return self.attrs[name]
+        if name == "__dict__":
+            return self.attrs  # the instance dictionary is the table of bindings
         m = self.cls.lookup(name)
         if m is not None:
             if m.is_property():
